@@ -130,6 +130,18 @@ Proof. exact die_cmp_trans. Qed.
 Theorem C09_die_eq_transitive_refuted : exists a b c,
   die_cmp a b = Eq /\ die_cmp b c = Eq /\ die_cmp a c <> Eq.
 Proof. exists (via 48), plain, (via 155). destruct die_eq_not_transitive as [H1 [H2 H3]]. rewrite H3. repeat split; auto; discriminate. Qed.
+(* what == on the cooked DIEs of one file is, exactly: the same offset, and of the two chains of imports the
+   DIEs were reached through (innermost import first) one is an initial part of the other.  Hence a DIE reached
+   without imports equals every route to it (D32), and routes through equally many imports are equal only when
+   they are the same route. *)
+Theorem C09_die_equality_characterised : forall o1 c1 o2 c2,
+  die_cmp (route o1 c1) (route o2 c2) = Eq <-> o1 = o2 /\ (prefix c1 c2 \/ prefix c2 c1).
+Proof. exact route_eq_iff. Qed.
+Theorem C09_chainless_equals_every_route : forall o c, die_cmp (route o []) (route o c) = Eq.
+Proof. exact chainless_equals_every_route. Qed.
+Theorem C09_equal_length_routes_equal_is_same : forall o1 c1 o2 c2, length c1 = length c2 ->
+  die_cmp (route o1 c1) (route o2 c2) = Eq -> o1 = o2 /\ c1 = c2.
+Proof. exact equal_length_routes. Qed.
 (* two units are equal only when they are the same unit of the same module *)
 Theorem C09_units_equal_is_same : forall a b, cu_cmp a b = Eq <-> a = b.
 Proof. exact cu_cmp_eq. Qed.
@@ -138,6 +150,9 @@ Example C09_die_nonvacuous :
 Proof. vm_compute. auto. Qed.
 
 Print Assumptions C09_die_refl.
+Print Assumptions C09_die_equality_characterised.
+Print Assumptions C09_chainless_equals_every_route.
+Print Assumptions C09_equal_length_routes_equal_is_same.
 Print Assumptions C09_die_dual.
 Print Assumptions C09_die_equal_is_same.
 Print Assumptions C09_die_transitive.
